@@ -57,6 +57,11 @@ def sources(tier, seed, ctx):
         if code % 5 == 0:
             f.append(sorted(r for r in range(4) if ((code * 7 + 3) >> r) & 1))
         srcs.append({'k': 'fn', 'n': 2, 'm': len(f), 'tt': f, 'rep': 'Circuit', 'deep': 1200 if tier == 'quick' else 3000})
+    # integer wrappers wider than a machine word (sampled operand values around 2^63, 2^64 and the width itself)
+    for L in ([65, 72, 128] if tier == 'quick' else [63, 64, 65, 72, 96, 128, 200]):
+        for f in ('inc', 'first', 'mul3', 'shr1', 'add'):
+            for big in (False, True):
+                srcs.append({'k': 'intfnwide', 'f': f, 'inlen': L, 'outlen': L + (2 if f in ('mul3', 'add') else 0) - (1 if f == 'first' and big else 0), 'big': big})
     # python callables that return (a view of) the very list they were given: identity and projections
     for n in (1, 2, 3):
         srcs.append({'k': 'fn', 'n': n, 'm': n, 'tt': [sorted(r for r in range(2 ** n) if (r >> (n - 1 - j)) & 1) for j in range(n)], 'rep': 'PyFunction', 'alias': 'identity'})
@@ -334,6 +339,30 @@ def record(src):
             return [case, fcase]
         except Exception:
             return case
+    if src['k'] == 'intfnwide':
+        fns = {'inc': lambda x: x + 1, 'first': lambda x: x, 'mul3': lambda x: 3 * x, 'shr1': lambda x: x >> 1}
+        case = {'kind': 'intfnwide', 'f': src['f'], 'inlen': src['inlen'], 'outlen': src['outlen'], 'big': src['big'], 'exc': '', 'samples': [], 'src': src}
+        r = random.Random(src['inlen'] * 131 + src['outlen'])
+        L = src['inlen']
+        vals = [0, 1, 2 ** L - 1, 2 ** (L - 1), 2 ** 64, 2 ** 64 - 1, 2 ** 64 + 1, 2 ** 63, (2 ** L - 1) ^ (2 ** 64 - 1)] + [r.getrandbits(L) for _ in range(12)]
+        tobits = lambda v, n: [bool((v >> (n - 1 - j)) & 1) for j in range(n)] if src['big'] else [bool((v >> j) & 1) for j in range(n)]
+        try:
+            kw = {} if not src['big'] else {'big_endian': True}
+            if src['f'] == 'add':
+                f = PyFunction.from_int_binary_func(lambda a, b: a + b, L, src['outlen'], **kw)
+            else:
+                f = PyFunction.from_int_unary_func(fns[src['f']], L, src['outlen'], **kw)
+            for j, v in enumerate(vals):
+                v %= 2 ** L
+                x = tobits(v, L)
+                y = tobits(vals[(j + 3) % len(vals)] % 2 ** L, L) if src['f'] == 'add' else []
+                out = list(f.evaluate(x + y))
+                if any(o is not True and o is not False for o in out):
+                    raise ValueError('non-boolean answer')
+                case['samples'].append({'x': x, 'y': y, 'out': out})
+        except Exception as e:
+            case['exc'] = type(e).__name__
+        return case
     if src['k'] == 'intfn':
         case = {'kind': 'intfn', 'f': src['f'], 'inlen': src['inlen'], 'outlen': src['outlen'], 'big': src['big'], 'binary': src['binary'], 'exc': '', 'rows': [], 'src': src}
         try:
